@@ -105,6 +105,10 @@ def scenarios(ctx):
                    init=(('connect', 0, False, 0, 4), ('connack', 0, 0, False), ('setwin', 0, 2)),
                    connects=[(False, 0, 4)], reconnects=[(True, 0, 4)], pub_qos=(1,), windows=(2,),
                    budgets=dict(pub=3, ack=1, setid=1, setwin=1, lose=1, rebuild=1, connect=1, connack=1)))
+    out.append(Std('reenter-purge-all', profile='pub', closing=False, reenter=('err:pub>pub',), reenter_max=3,
+                   init=(('connect', 0, False, 0, 4), ('connack', 0, 0, False), ('setwin', 0, 2)),
+                   connects=[(False, 0, 4)], reconnects=[(True, 0, 4)], pub_qos=(1,), windows=(2,),
+                   budgets=dict(pub=3, ack=1, setid=1, lose=1, rebuild=1, connect=1, connack=1)))
     out.append(Std('two-addresses', profile='pubsub', naddr=2, closing=False,
                    init=(('connect', 0, True, 0, 4), ('connack', 0, 0, False), ('connect', 1, True, 0, 4),
                          ('connack', 1, 0, False), ('pub', 0, 1), ('pub', 0, 2), ('sub', 0, 'str'), ('pub', 1, 1),
